@@ -1,0 +1,37 @@
+//go:build verif
+
+// Contracts for the verification machinery in /verif (govc). Comment-only.
+
+package updater
+
+// structural invariant of a resource: every listed version exists and points back to a resource with a registry
+//@ spec wfRes(res *Resource) bool = res != nil && res.registry != nil && (forall k int :: soff(res.Versions) <= k && k < soff(res.Versions) + len(res.Versions) ==> elems(res.Versions)[k] != nil && elems(res.Versions)[k].resource != nil && elems(res.Versions)[k].resource.registry != nil)
+
+// A version is selectable if it is not blacklisted and either available locally or downloadable.
+//@ spec selectable(rv *ResourceVersion) bool = !rv.Blacklisted && (rv.Available || (rv.resource.registry.Online && rv.resource.Index != nil && rv.resource.Index.AutoDownload))
+
+//@ func (*ResourceVersion).isSelectable
+//@   requires rv != nil && rv.resource != nil && rv.resource.registry != nil
+//@   pure
+//@   ensures r0 == selectable(rv)
+
+//@ func (*ResourceVersion).storagePath
+//@   trusted
+//@   pure
+//@ func (*ResourceVersion).storageSigPath
+//@   trusted
+//@   pure
+
+// Purge: the versions that remain listed are a prefix of the (newest-first) list, files are
+// only removed for versions behind that prefix, and nothing happens while a version is blacklisted.
+//@ func (*Resource).Purge
+//@   requires wfRes(res)
+//@   modifies res.Versions
+//@   ghost var firstRemoved int = 1 << 60
+//@   at call os.Remove#0 ghost firstRemoved = (purgeBoundary + rangeindex + 1 < firstRemoved ? purgeBoundary + rangeindex + 1 : firstRemoved)
+//@   ensures sameBase(res.Versions, old(res.Versions)) && soff(res.Versions) == old(soff(res.Versions)) && len(res.Versions) <= old(len(res.Versions))
+//@   ensures len(res.Versions) <= firstRemoved
+//@   ensures wfRes(res)
+//@   loop 0 invariant rangeindex >= -1 && rangeindex <= 1<<48 && firstRemoved == 1<<60
+//@   loop 1 invariant rangeindex >= -1 && rangeindex <= 1<<48 && firstRemoved == 1<<60
+//@   loop 2 invariant rangeindex >= -1 && rangeindex <= 1<<48 && firstRemoved >= purgeBoundary && res.Versions == old(res.Versions) && wfRes(res)
